@@ -174,7 +174,7 @@ def require_ok(run, what):
 
 
 # -- trace reports ----------------------------------------------------------
-MISMATCH_RE = re.compile(r'<<"MISMATCH", (\d+), "([\w.]+)", \{(.*?)\}>>')
+MISMATCH_RE = re.compile(r'<<\s*"MISMATCH",\s*(\d+),\s*"([\w.]+)",\s*\{(.*?)\}\s*>>')
 
 
 def parse_trace_report(run):
@@ -184,7 +184,7 @@ def parse_trace_report(run):
     for m in MISMATCH_RE.finditer(txt):
         comps = [c.strip().strip('"') for c in m.group(3).split(",") if c.strip()]
         mism.append((int(m.group(1)), m.group(2), comps))
-    m = re.search(r'<<"TRACE", "matched", (\d+), "of", (\d+)>>', txt)
+    m = re.search(r'<<\s*"TRACE",\s*"matched",\s*(\d+),\s*"of",\s*(\d+)\s*>>', txt)
     if not m:
         raise Infra("trace validation produced no TRACE line:\n" + run.tail())
     matched, total = int(m.group(1)), int(m.group(2))
